@@ -1,4 +1,5 @@
 import Secp.Proofs.Der
+import Secp.Proofs.BytesProg
 /-
   Props/C09 — DER signature codec is strict, canonical and round-trips.
   ONLY property theorems and non-vacuity examples live here; helper lemmas are
@@ -48,6 +49,32 @@ theorem serialize_parse (b : Bytes) (r s : Nat) (h : parseDER b = .ok (r, s)) (h
 theorem parseDER_err_sound (b : Bytes) (e : SigErr) (h : parseDER b = .err e) :
     DerViolates b e :=
   Secp.Proofs.Der.parseDER_err_sound b e h
+
+/-! ### the parser as REGENERATED from signature.go
+
+  `Secp.Gen.BytesProg.parseDER` is produced on every run by tools/gotr pass T7: a statement-by-statement translation
+  of `ParseDERSignature` into the `Outcome` monad (index and slice expressions bound first, `&&` kept short-circuit,
+  the strip-leading-zeroes loop and the scalar decoding recognised as the model's `stripZeros` /
+  `scalarSetByteSlice`).  It is the same function as the hand-written model, so every theorem above is a theorem
+  about what the Go source says now: a changed bound, a moved check, an index off by one or a dropped rule makes
+  `parseDER_regenerated` fail to check. -/
+
+/-- the regenerated parser and the hand-written model are the same function -/
+theorem parseDER_regenerated (b : Bytes) : Secp.Gen.BytesProg.parseDER b = parseDER b :=
+  Secp.Proofs.BytesProg.parseDER_gen_eq_model b
+
+/-- acceptance of the REGENERATED parser is exactly canonical DER of two scalars in [1, N-1] -/
+theorem regenerated_ok_iff (b : Bytes) (r s : Nat) :
+    Secp.Gen.BytesProg.parseDER b = .ok (r, s) ↔ (b = canonicalDER r s ∧ 0 < r ∧ r < N ∧ 0 < s ∧ s < N) := by
+  rw [parseDER_regenerated]; exact parseDER_ok_iff b r s
+
+/-- the REGENERATED parser never indexes or slices out of range -/
+theorem regenerated_no_panic (b : Bytes) : Secp.Gen.BytesProg.parseDER b ≠ .panic := by
+  rw [parseDER_regenerated]; exact parseDER_no_panic b
+
+/-- every rejection of the REGENERATED parser names a rule the input really violates -/
+theorem regenerated_err_sound (b : Bytes) (e : SigErr) (h : Secp.Gen.BytesProg.parseDER b = .err e) : DerViolates b e := by
+  rw [parseDER_regenerated] at h; exact parseDER_err_sound b e h
 
 -- non-vacuity: a concrete accepted string, a concrete rejected one
 example : parseDER [0x30, 0x06, 0x02, 0x01, 0x01, 0x02, 0x01, 0x01] = .ok (1, 1) := by decide
